@@ -280,9 +280,15 @@ def table_mask(tbl):
   return m
 
 
-def coq_table(pool, tbl):
-  return "[%s]" % "; ".join("(%s, [%s])" % (pool.name_ref(k), "; ".join(pool.name_ref(x) for x in sorted(vs)))
-                            for k, vs in tbl.items())
+def coq_table(pool, tbl, shared=None):
+  def vals(vs):
+    key = tuple(sorted(vs))
+    if shared is not None and all(v in VALS for v in key):
+      if key not in shared:
+        shared[key] = "s%d" % len(shared)
+      return shared[key]
+    return "[%s]" % "; ".join(pool.name_ref(x) for x in key)
+  return "[%s]" % "; ".join("(%s, %s)" % (pool.name_ref(k), vals(vs)) for k, vs in tbl.items())
 
 
 # --------------------------------------------------------------------------------------------
@@ -354,102 +360,92 @@ class CoqBatch:
     self.extra_tbl.append(tbl)
     return len(self.tables) + len(self.extra_tbl) - 1
 
-  def files(self, ctor_per_file=900, dense_per_file=80, sparse_pairs_per_file=15000):
+  def files(self):
+    """One kind of file: pool definitions, the tables, then three lists (constructor cases, dense simplify rows,
+    sparse simplify rows), each ending with a canary (a wrong expectation that must be reported)."""
     p = self.pool
-    out = []
-    meta = {}
-    # canary term: a wrong expectation that must be reported, proving the comparator is live
-    for n, chunk in enumerate(chunks(self.ctor, ctor_per_file)):
-      used = [i for c in chunk for i in c[2]]
-      body = [p.coq_defs(used)]
-      body.append("Definition cases : list bool := [\n  %s;\n  chk_op KAnd [TEq n0 n3; TEq n1 n3] (TEq n0 n3)\n]." %
-                  ";\n  ".join(c[1] for c in chunk))
-      body.append("Eval vm_compute in (failing 0 cases).")
-      name = "c17_ctor_%d" % n
-      out.append((name, body))
-      meta[name] = ("ctor", chunk)
+    npairs = sum(len(c[2]) for c in self.sparse)
+    k = int(0.5 * (len(self.ctor) / 1200.0 + len(self.dense) / 80.0 + npairs / 20000.0)) + 1
+    k = max(1, min(96, k))
+    def part(l, n):
+      return [l[(len(l) * n) // k:(len(l) * (n + 1)) // k] for n in range(k)][n]
     all_tbls = self.tables + self.extra_tbl
-    tbl_def = "Definition tables : list table := [\n  %s\n]." % ";\n  ".join(coq_table(p, t) for t in all_tbls)
-    for n, chunk in enumerate(chunks(self.dense, dense_per_file)):
-      used = [c[1] for c in chunk] + [i for c in chunk for i in c[2] if i is not None]
-      body = [p.coq_defs(used), tbl_def]
+    bodies, meta = [], {}
+    for n in range(k):
+      ctor, dense, sparse = part(self.ctor, n), part(self.dense, n), part(self.sparse, n)
+      used = [i for c in ctor for i in c[2]]
+      used += [c[1] for c in dense] + [i for c in dense for i in c[2] if i is not None]
+      used += [c[1] for c in sparse] + [i for c in sparse for (_, i) in c[2] if i is not None]
+      body = [p.coq_defs(used)]
+      shared = {}
+      tbl_txt = ";\n  ".join(coq_table(p, t, shared) for t in all_tbls)
+      for key, nm in shared.items():
+        body.append("Definition %s : list name := [%s]." % (nm, "; ".join(p.name_ref(x) for x in key)))
+      body.append("Definition tables : list table := [\n  %s\n]." % tbl_txt)
+      body.append("Definition std_tables := firstn (N.to_nat %d) tables." % len(self.tables))
+      body.append("Definition cases : list bool := [\n  %s\n  chk_op KAnd [TEq n0 n3; TEq n1 n3] (TEq n0 n3)\n]." %
+                  "".join(c[1] + ";\n  " for c in ctor))
       rows = []
-      for j, (label, ti, results, which) in enumerate(chunk):
+      for j, (label, ti, results, which) in enumerate(dense):
         masks = [0] * len(results)
-        for k, w in enumerate(which):
-          masks[w] |= 1 << k
+        for pos, w in enumerate(which):
+          masks[w] |= 1 << pos
         rows.append("(%d, chk_dense 0 t%d [%s] std_tables)" % (
             j, ti, "; ".join("(%s, %s)" % (opt_ref(i), chunk_mask(m)) for i, m in zip(results, masks))))
-      # canary: a wrong expectation for the first two tables (and none for the others)
-      rows.append("(%d, chk_dense 0 (TEq n0 n3) [(Some (TEq n1 n3), [3])] (firstn (N.to_nat 2) tables))" % len(chunk))
-      body.append("Definition std_tables := firstn (N.to_nat %d) tables." % len(self.tables))
-      body.append("Definition rows : list (N * list N) := [\n  %s\n]." % ";\n  ".join(rows))
-      body.append("Eval vm_compute in (keep_bad rows).")
-      name = "c17_dense_%d" % n
-      out.append((name, body))
-      meta[name] = ("dense", chunk)
-    cur, cnt, groups = [], 0, []
-    for c in self.sparse:
-      cur.append(c); cnt += len(c[2])
-      if cnt >= sparse_pairs_per_file:
-        groups.append(cur); cur, cnt = [], 0
-    if cur:
-      groups.append(cur)
-    for n, chunk in enumerate(groups):
-      used = [c[1] for c in chunk] + [i for c in chunk for (_, i) in c[2] if i is not None]
-      body = [p.coq_defs(used), tbl_def]
+      rows.append("(%d, chk_dense 0 (TEq n0 n3) [(Some (TEq n1 n3), [3])] (firstn (N.to_nat 2) tables))" % len(dense))
+      body.append("Definition drows : list (N * list N) := [\n  %s\n]." % ";\n  ".join(rows))
       rows = []
-      for j, (label, ti, pairs) in enumerate(chunk):
+      for j, (label, ti, pairs) in enumerate(sparse):
         rows.append("(%d, chk_at t%d tables [%s])" % (
-            j, ti, "; ".join("(%d, %s)" % (k, opt_ref(i)) for k, i in pairs)))
-      rows.append("(%d, chk_at (TEq n0 n3) tables [(0, Some (TEq n1 n3))])" % len(chunk))
-      body.append("Definition rows : list (N * list N) := [\n  %s\n]." % ";\n  ".join(rows))
-      body.append("Eval vm_compute in (keep_bad rows).")
-      name = "c17_sparse_%d" % n
-      out.append((name, body))
-      meta[name] = ("sparse", chunk)
+            j, ti, "; ".join("(%d, %s)" % (q, opt_ref(i)) for q, i in pairs)))
+      rows.append("(%d, chk_at (TEq n0 n3) tables [(0, Some (TEq n1 n3))])" % len(sparse))
+      body.append("Definition srows : list (N * list N) := [\n  %s\n]." % ";\n  ".join(rows))
+      body.append("Eval vm_compute in (failing 0 cases).")
+      body.append("Eval vm_compute in (keep_bad drows).")
+      body.append("Eval vm_compute in (keep_bad srows).")
+      name = "c17_cases_%d" % n
+      bodies.append((name, body))
+      meta[name] = (ctor, dense, sparse)
     names_def = p.coq_names()       # after all name_ref calls
-    return [(n, PREAMBLE + names_def + "\n".join(b) + "\n") for n, b in out], meta
+    return [(n, PREAMBLE + names_def + "\n".join(b) + "\n") for n, b in bodies], meta
 
   def run(self, res):
     """Returns list of mismatches: dicts with label + detail; registers failed obligations for broken files."""
     files, meta = self.files()
     t0 = time.time()
-    results = common.run_cases_parallel(files, timeout=1200)
+    results = common.run_cases_parallel(files, timeout=1500)
     res.extra["coq_case_files"] = len(files)
     res.extra["coq_cases_wall_s"] = round(time.time() - t0, 1)
     mism = []
     all_tbls = self.tables + self.extra_tbl
     for name, _ in files:
       ok, out = results[name]
-      kind, chunk = meta[name]
+      ctor, dense, sparse = meta[name]
       if not ok:
         res.obligation("model-run:" + name, False, out[-1500:])
         continue
       terms = common.parse_coq_eval(out)
-      if len(terms) != 1:
+      if len(terms) != 3:
         res.obligation("model-run:" + name, False, "unexpected output: " + out[-800:])
         continue
-      txt = terms[0]
-      if kind == "ctor":
-        bad = [int(x) for x in re.findall(r"\d+", txt)]
-        if len(chunk) not in bad:
-          res.obligation("comparator-live:" + name, False, "the canary case was not reported: " + txt[:300])
-        for i in bad:
-          if i < len(chunk):
-            mism.append({"what": "constructor", "label": chunk[i][0], "coq": chunk[i][1], "file": name})
-      else:
+      bad = [int(x) for x in re.findall(r"\d+", terms[0])]
+      if len(ctor) not in bad:
+        res.obligation("comparator-live:" + name, False, "the constructor canary was not reported: " + terms[0][:300])
+      for i in bad:
+        if i < len(ctor):
+          mism.append({"what": "constructor", "label": ctor[i][0], "coq": ctor[i][1], "file": name})
+      for what, chunk, txt in (("dense", dense, terms[1]), ("sparse", sparse, terms[2])):
         rows = {}
         for m in re.finditer(r"\((\d+), \[([\d; ]*)\]\)", txt):
           rows[int(m.group(1))] = [int(x) for x in m.group(2).replace(";", " ").split()]
         if len(chunk) not in rows:
-          res.obligation("comparator-live:" + name, False, "the canary case was not reported: " + txt[:300])
-        for j, tis in rows.items():
+          res.obligation("comparator-live:" + name, False, "the %s canary was not reported: %s" % (what, txt[:300]))
+        for j, tis in sorted(rows.items()):
           if j < len(chunk):
             for ti in tis[:3]:
               mism.append({"what": "simplify", "label": chunk[j][0], "term": self.pool.defs[chunk[j][1]],
                            "term_canon": show(self.pool.canon[chunk[j][1]]),
-                           "table": {k: sorted(v) for k, v in all_tbls[ti].items()} if ti < len(all_tbls) else ti,
+                           "table": {q: sorted(v) for q, v in all_tbls[ti].items()} if ti < len(all_tbls) else ti,
                            "file": name, "term_idx": chunk[j][1], "table_idx": ti})
     return mism
 
@@ -490,6 +486,10 @@ def source_digest():
 # --------------------------------------------------------------------------------------------
 # the run
 
+class Enough(Exception):
+  pass
+
+
 class Ctx:
   def __init__(self, res, b):
     self.res = res
@@ -508,6 +508,12 @@ class Ctx:
     if self.nviol >= 3:
       return
     replay = shrink_replay(self.b, replay)
+    try:
+      v = check_replay(self.b, replay)
+      if v and v[0] == fp:
+        what = v[1]
+    except Exception:  # pylint: disable=broad-except
+      pass
     if self.res.violation(fp, what, replay):
       self.nviol += 1
 
@@ -525,6 +531,8 @@ class Ctx:
     return i
 
   def call_op(self, kindname, arg_idxs, general=False):
+    if self.nviol >= 3:
+      raise Enough()
     b = self.b
     p = self.pool
     args = [p.obj[i] for i in arg_idxs]
@@ -561,6 +569,8 @@ class Ctx:
 
   def simplify_pair(self, ti, tbl, mask):
     """Runs the real simplify on (term ti, tbl); returns result pool index or None (KeyError); runs the oracle."""
+    if self.nviol >= 3:
+      raise Enough()
     b = self.b
     p = self.pool
     t = p.obj[ti]
@@ -743,7 +753,7 @@ def run(res):
   thorough = res.tier == "thorough"
   digest = source_digest()
   drift = digest != VALIDATED_DIGEST
-  deep = thorough or drift
+  level = 2 if thorough else (1 if drift else 0)
   res.extra["source_digest"] = digest
   res.extra["drift_escalation"] = bool(drift and not thorough)
   res.rule = ("public-constructor terms over variables ~a ~b ~c and values x y z: every Eq(l,r) (36 ordered pairs), "
@@ -770,139 +780,152 @@ def run(res):
   r = common.rng(res.seed, "c17")
   p = cx.pool
 
-  # ---- corpus first
-  cdir = os.path.join(common.CORPUS, "C17")
-  corpus = []
-  for f in sorted(os.listdir(cdir)) if os.path.isdir(cdir) else []:
-    corpus.append((f, json.load(open(os.path.join(cdir, f)))))
-  for f, rep in corpus:
-    v = check_replay(b, rep)
-    if v:
-      cx.violation(v[0], v[1], rep)
-    t = build(b, rep["recipe"])
-    ti = p.intern(t, rep["recipe"])
-    if rep["kind"] == "simplify":
-      tbl = {k: set(vv) for k, vv in rep["table"].items()}
-      ri = cx.simplify_pair(ti, tbl, None)
-      cx.batch.sparse.append(("corpus:" + f, ti, [(cx.batch.table_index(tbl), ri)]))
-    elif not isinstance(rep["recipe"], str) and rep["recipe"][0] in ("And", "Or"):
-      kids = [p.intern(build(b, x), x) for x in rep["recipe"][1]]
-      cx.call_op(rep["recipe"][0], kids)
+  def generate():
+    # ---- corpus first
+    cdir = os.path.join(common.CORPUS, "C17")
+    corpus = []
+    for f in sorted(os.listdir(cdir)) if os.path.isdir(cdir) else []:
+      corpus.append((f, json.load(open(os.path.join(cdir, f)))))
+    for f, rep in corpus:
+      v = check_replay(b, rep)
+      if v:
+        cx.violation(v[0], v[1], rep)
+      t = build(b, rep["recipe"])
+      ti = p.intern(t, rep["recipe"])
+      if rep["kind"] == "simplify":
+        tbl = {k: set(vv) for k, vv in rep["table"].items()}
+        ri = cx.simplify_pair(ti, tbl, None)
+        cx.batch.sparse.append(("corpus:" + f, ti, [(cx.batch.table_index(tbl), ri)]))
+      elif not isinstance(rep["recipe"], str) and rep["recipe"][0] in ("And", "Or"):
+        kids = [p.intern(build(b, x), x) for x in rep["recipe"][1]]
+        cx.call_op(rep["recipe"][0], kids)
 
-  # ---- depth 1: all Eq calls
-  p.intern(b.TRUE, "TRUE"); p.intern(b.FALSE, "FALSE")
-  atoms = [p.by_key["T"], p.by_key["F"]]
-  for l in NAMES:
-    for rr in NAMES:
-      i = cx.call_eq(l, rr)
-      if i not in atoms:
-        atoms.append(i)
-  # ---- depth 2: And/Or over argument lists of length 0..2 (all), 3 (all in deep, sample in quick)
-  d2 = list(atoms)
-  def add(level, i):
-    if i not in level_set:
-      level_set.add(i); level.append(i)
-  level_set = set(d2)
-  for kn in ("And", "Or"):
-    for n in (0, 1, 2):
-      for args in itertools.product(atoms, repeat=n):
-        add(d2, cx.call_op(kn, list(args)))
-  d2_small = list(d2)                              # arity <= 2
-  triples = list(itertools.product(atoms, repeat=3))
-  if not deep:
-    triples = r.sample(triples, 400)
-  d2_big = []
-  for kn in ("And", "Or"):
-    for args in triples:
-      i = cx.call_op(kn, list(args))
+    # ---- depth 1: all Eq calls
+    p.intern(b.TRUE, "TRUE"); p.intern(b.FALSE, "FALSE")
+    atoms = [p.by_key["T"], p.by_key["F"]]
+    for l in NAMES:
+      for rr in NAMES:
+        i = cx.call_eq(l, rr)
+        if i not in atoms:
+          atoms.append(i)
+    # ---- depth 2: And/Or over argument lists of length 0..2 (all), 3 (all in deep, sample in quick)
+    d2 = list(atoms)
+    def add(level, i):
       if i not in level_set:
-        level_set.add(i); d2_big.append(i)
-  # ---- depth 3: And/Or over pairs of depth<=2 (arity<=2) terms
-  pairs = list(itertools.product(d2_small, repeat=2))
-  if not deep:
-    pairs = r.sample(pairs, 1000)
-  d3 = []
-  seen3 = set()
-  for kn in ("And", "Or"):
-    for args in pairs:
-      i = cx.call_op(kn, list(args))
+        level_set.add(i); level.append(i)
+    level_set = set(d2)
+    for kn in ("And", "Or"):
+      for n in (0, 1, 2):
+        for args in itertools.product(atoms, repeat=n):
+          add(d2, cx.call_op(kn, list(args)))
+    d2_small = list(d2)                              # arity <= 2
+    triples = list(itertools.product(atoms, repeat=3))
+    if level == 0:
+      triples = r.sample(triples, 400)
+    d2_big = []
+    for kn in ("And", "Or"):
+      for args in triples:
+        i = cx.call_op(kn, list(args))
+        if i not in level_set:
+          level_set.add(i); d2_big.append(i)
+    # ---- depth 3: And/Or over pairs of depth<=2 (arity<=2) terms
+    pairs = list(itertools.product(d2_small, repeat=2))
+    if level < 2:
+      pairs = r.sample(pairs, 8000 if level else 1000)
+    d3 = []
+    seen3 = set()
+    for kn in ("And", "Or"):
+      for args in pairs:
+        i = cx.call_op(kn, list(args))
+        if i not in level_set and i not in seen3:
+          seen3.add(i); d3.append(i)
+    # a few wider / deeper random terms through the API
+    deep_terms = []
+    lvl = d2_small + d3[:2000]
+    for _ in range((300, 1000, 3000)[level]):
+      n = r.choice([2, 3, 3, 4, 5])
+      i = cx.call_op(r.choice(["And", "Or"]), [r.choice(lvl) for _ in range(n)])
       if i not in level_set and i not in seen3:
-        seen3.add(i); d3.append(i)
-  # a few wider / deeper random terms through the API
-  deep_terms = []
-  lvl = d2_small + d3[:2000]
-  for _ in range(3000 if deep else 300):
-    n = r.choice([2, 3, 3, 4, 5])
-    i = cx.call_op(r.choice(["And", "Or"]), [r.choice(lvl) for _ in range(n)])
-    if i not in level_set and i not in seen3:
-      seen3.add(i); deep_terms.append(i)
-      if len(lvl) < 6000:
-        lvl.append(i)
-  res.extra["terms"] = {"atoms": len(atoms), "depth<=2 arity<=2": len(d2_small), "depth2 arity3 (new)": len(d2_big),
-                        "depth3 (new)": len(d3), "random wider/deeper (new)": len(deep_terms)}
+        seen3.add(i); deep_terms.append(i)
+        if len(lvl) < 6000:
+          lvl.append(i)
+    info["d2_small"], info["d3"] = d2_small, d3
+    res.extra["terms"] = {"atoms": len(atoms), "depth<=2 arity<=2": len(d2_small), "depth2 arity3 (new)": len(d2_big),
+                          "depth3 (new)": len(d3), "random wider/deeper (new)": len(deep_terms)}
 
-  # ---- simplify: dense = every table; sparse = sampled tables
+    # ---- simplify: dense = every table; sparse = sampled tables
+    ntab = len(cx.tables)
+    def dense(ti, label):
+      results, pos, which = [], {}, []
+      for k, tbl in enumerate(cx.tables):
+        ri = cx.simplify_pair(ti, tbl, cx.masks[k])
+        if ri not in pos:
+          pos[ri] = len(results); results.append(ri)
+        which.append(pos[ri])
+        res.count((ti, k) if ri != ti else None)
+      cx.batch.dense.append((label, ti, results, which))
+    def sparse(ti, label, n):
+      ks = r.sample(range(ntab), n)
+      prs = []
+      for k in ks:
+        ri = cx.simplify_pair(ti, cx.tables[k], cx.masks[k])
+        prs.append((k, ri))
+        res.count((ti, k) if ri != ti else None)
+      cx.batch.sparse.append((label, ti, prs))
+    for ti in d2_small:
+      dense(ti, "d2")
+    if level:
+      for ti in d2_big:
+        dense(ti, "d2w")
+      for ti in d3:
+        sparse(ti, "d3", 24 if level == 2 else 16)
+      for ti in deep_terms:
+        sparse(ti, "rnd", 24 if level == 2 else 16)
+    else:
+      for ti in r.sample(d2_big, min(len(d2_big), 40)):
+        dense(ti, "d2w")
+      for ti in d2_big:
+        sparse(ti, "d2w", 8)
+      for ti in d3:
+        sparse(ti, "d3", 8)
+      for ti in deep_terms:
+        sparse(ti, "rnd", 8)
+
+    # ---- edge stream: odd names (orientation above '~', empty, non-ASCII), odd tables (value names as keys)
+    edge_terms = []
+    for l in EDGE_NAMES:
+      for rr in EDGE_NAMES:
+        edge_terms.append(cx.call_eq(l, rr))
+    edge_atoms = sorted(set(edge_terms))
+    edge_ops = []
+    for n in range((250, 600, 1200)[level]):
+      src = edge_atoms + atoms if n % 3 or not edge_ops else edge_ops + edge_atoms
+      args = [r.choice(src) for _ in range(r.choice([1, 2, 2, 3]))]
+      if len(set().union(*[term_names(b, p.obj[a]) for a in args])) > 6:
+        continue                                   # keeps the brute-force truth table small
+      edge_ops.append(cx.call_op(r.choice(["And", "Or"]), args, general=True))
+    edge_terms = sorted(set(edge_atoms + edge_ops))
+    for ti in r.sample(edge_terms, min(len(edge_terms), (300, 700, 1500)[level])):
+      prs = []
+      for _ in range(4):
+        keys = r.sample(EDGE_NAMES + VARS + VALS, r.randint(0, 6))
+        if r.random() < 0.6:       # mostly cover the variables so the oracle applies
+          keys = sorted(set(keys) | term_vars(b, p.obj[ti]))
+        tbl = {k: set(r.sample(EDGE_NAMES + VALS, r.randint(0, 4))) for k in keys}
+        ri = simplify_general(cx, ti, tbl)
+        prs.append((cx.batch.table_index(tbl), ri))
+      cx.batch.sparse.append(("edge", ti, prs))
+
+
+  info = {"d2_small": [], "d3": []}
   ntab = len(cx.tables)
-  def dense(ti, label):
-    results, pos, which = [], {}, []
-    for k, tbl in enumerate(cx.tables):
-      ri = cx.simplify_pair(ti, tbl, cx.masks[k])
-      if ri not in pos:
-        pos[ri] = len(results); results.append(ri)
-      which.append(pos[ri])
-      res.count((ti, k) if ri != ti else None)
-    cx.batch.dense.append((label, ti, results, which))
-  def sparse(ti, label, n):
-    ks = r.sample(range(ntab), n)
-    prs = []
-    for k in ks:
-      ri = cx.simplify_pair(ti, cx.tables[k], cx.masks[k])
-      prs.append((k, ri))
-      res.count((ti, k) if ri != ti else None)
-    cx.batch.sparse.append((label, ti, prs))
-  for ti in d2_small:
-    dense(ti, "d2")
-  if deep:
-    for ti in d2_big:
-      dense(ti, "d2w")
-    for ti in d3:
-      sparse(ti, "d3", 24)
-    for ti in deep_terms:
-      sparse(ti, "rnd", 24)
-  else:
-    for ti in r.sample(d2_big, min(len(d2_big), 60)):
-      dense(ti, "d2w")
-    for ti in d2_big:
-      sparse(ti, "d2w", 12)
-    for ti in d3:
-      sparse(ti, "d3", 12)
-    for ti in deep_terms:
-      sparse(ti, "rnd", 12)
-
-  # ---- edge stream: odd names (orientation above '~', empty, non-ASCII), odd tables (value names as keys)
-  edge_terms = []
-  for l in EDGE_NAMES:
-    for rr in EDGE_NAMES:
-      edge_terms.append(cx.call_eq(l, rr))
-  edge_atoms = sorted(set(edge_terms))
-  edge_ops = []
-  for n in range(1200 if deep else 250):
-    src = edge_atoms + atoms if n % 3 or not edge_ops else edge_ops + edge_atoms
-    args = [r.choice(src) for _ in range(r.choice([1, 2, 2, 3]))]
-    if len(set().union(*[term_names(b, p.obj[a]) for a in args])) > 6:
-      continue                                   # keeps the brute-force truth table small
-    edge_ops.append(cx.call_op(r.choice(["And", "Or"]), args, general=True))
-  edge_terms = sorted(set(edge_atoms + edge_ops))
-  for ti in r.sample(edge_terms, min(len(edge_terms), 1500 if deep else 300)):
-    prs = []
-    for _ in range(4):
-      keys = r.sample(EDGE_NAMES + VARS + VALS, r.randint(0, 6))
-      if r.random() < 0.6:       # mostly cover the variables so the oracle applies
-        keys = sorted(set(keys) | term_vars(b, p.obj[ti]))
-      tbl = {k: set(r.sample(EDGE_NAMES + VALS, r.randint(0, 4))) for k in keys}
-      ri = simplify_general(cx, ti, tbl)
-      prs.append((cx.batch.table_index(tbl), ri))
-    cx.batch.sparse.append(("edge", ti, prs))
+  try:
+    generate()
+  except Enough:
+    # three concrete violations are already on record: the remaining enumeration would only repeat them
+    res.extra["stopped_early"] = "3 violations with concrete inputs found"
+    cx.batch.ctor = cx.batch.ctor[:1500]; cx.batch.dense = cx.batch.dense[:40]; cx.batch.sparse = cx.batch.sparse[:300]
+  d2_small, d3 = info["d2_small"], info["d3"]
 
   # ---- model vs implementation
   mism = cx.batch.run(res)
@@ -922,7 +945,7 @@ def run(res):
   res.extra["distribution"] = cx.hist
   res.extra["tables"] = ntab
   res.extra["pool_terms"] = len(p.defs)
-  for i in (d2_small[40], d2_small[-1]) + ((d3[0],) if d3 else ()):
+  for i in ((d2_small[40], d2_small[-1]) if len(d2_small) > 40 else ()) + ((d3[0],) if d3 else ()):
     tbl = cx.tables[r.randrange(ntab)]
     try:
       out = show(canon(b, p.obj[i].simplify(tbl)))
